@@ -257,6 +257,15 @@ func init() {
 		nanSign := ft.c.Fresh("nansign", SBool)
 		return &Val{T: rt, L: []Term{mkIte(app(SBool, "fp.isNaN", f), nanSign, app(SBool, "fp.isNegative", f))}}
 	}
+	intrinsics["math.Copysign"] = func(fr *frame, c *ssa.CallCommon, args []*Val, rt types.Type, pos token.Pos) *Val {
+		ft := fr.ft
+		x, y := args[0].L[0], args[1].L[0]
+		nanSign := ft.c.Fresh("nansign", SBool)
+		neg := mkIte(app(SBool, "fp.isNaN", y), nanSign, app(SBool, "fp.isNegative", y))
+		ax := Term{SF64, "(fp.abs " + x.T + ")"}
+		return &Val{T: rt, L: []Term{mkIte(neg, Term{SF64, "(fp.neg " + ax.T + ")"}, ax)}}
+	}
+	intrinsicMods["math.Copysign"] = noMods
 	intrinsics["math.Inf"] = func(fr *frame, c *ssa.CallCommon, args []*Val, rt types.Type, pos token.Pos) *Val {
 		s := args[0].L[0]
 		return &Val{T: rt, L: []Term{mkIte(app(SBool, "bvsge", s, bvInt(64, 0)), Term{SF64, "(_ +oo 11 53)"}, Term{SF64, "(_ -oo 11 53)"})}}
